@@ -349,19 +349,29 @@ Record xmatrix := {
   xm_key : str;
   xm_sig : str }.                                         (* the signature's bytes *)
 
+(** One `name=value` auth-param as [Display] writes it, and the `,`-separated rest. *)
+Definition render_param (kv : str * str) : str := fst kv ++ EQUALS :: quote_if_required (snd kv).
+Fixpoint render_rest (ps : list (str * str)) : str :=
+  match ps with
+  | [] => []
+  | kv :: r => COMMA :: render_param kv ++ render_rest r
+  end.
+Definition render_params (ps : list (str * str)) : str :=
+  match ps with
+  | [] => []
+  | kv :: r => render_param kv ++ render_rest r
+  end.
+
 Section WithBase64.
 Variable b64_encode : str -> str.                          (* unpadded standard base64 *)
 
-(** authentication.rs:121-139 *)
-Definition xm_show (x : xmatrix) : str :=
-  s!"X-Matrix " ++
-  match xm_destination x with
-  | Some d => s!"destination=" ++ quote_if_required d ++ [COMMA]
-  | None => []
-  end ++
-  s!"key=" ++ quote_if_required (xm_key x) ++
-  s!",origin=" ++ quote_if_required (xm_origin x) ++
-  s!",sig=" ++ quote_if_required (b64_encode (xm_sig x)).
+(** authentication.rs:121-139: `X-Matrix `, then `destination=..,` if there is one, then
+    `key=..,origin=..,sig=..`, every value through [quote_ascii_string_if_required]. *)
+Definition xm_params_of (x : xmatrix) : list (str * str) :=
+  match xm_destination x with Some d => [(s!"destination", d)] | None => [] end ++
+  [(s!"key", xm_key x); (s!"origin", xm_origin x); (s!"sig", b64_encode (xm_sig x))].
+
+Definition xm_show (x : xmatrix) : str := s!"X-Matrix " ++ render_params (xm_params_of x).
 End WithBase64.
 
 (** ** http-auth 0.1.10 [ChallengeParser] (parser.rs), transliterated.
@@ -529,6 +539,19 @@ Definition X_PARSE_B64 : N := 4.
 Definition X_MISSING : N := 5.
 Definition X_DUPLICATE : N := 6.
 
+(** The `if name.eq_ignore_ascii_case("origin") .. else if ..` chain of authentication.rs:74-104:
+    1 origin, 2 destination, 3 key, 4 sig, 0 anything else (ignored). *)
+Definition field_tag (name : str) : N :=
+  if eq_ignore_case name s!"origin" then 1
+  else if eq_ignore_case name s!"destination" then 2
+  else if eq_ignore_case name s!"key" then 3
+  else if eq_ignore_case name s!"sig" then 4
+  else 0.
+
+(** The parameters with [to_unescaped] applied to the values. *)
+Definition unescaped_params (c : challenge) : list (str * str) :=
+  List.map (fun kv => (fst kv, unescape (fst (snd kv)))) (c_params c).
+
 Section WithValidators.
 (** Identifier validation and base64 decoding are not part of this property (C10 covers the
     identifier grammar); they are parameters.  In [Run.v] they are instantiated by what the
@@ -540,52 +563,53 @@ Variable b64_decode : str -> option str.
 Record xacc := {
   a_origin : option str; a_destination : option str; a_key : option str; a_sig : option str }.
 
-(** authentication.rs:73-105 *)
-Fixpoint xm_params (ps : list (str * pvalue)) (a : xacc) : outcome xacc :=
+(** authentication.rs:73-105: one parameter, its value already unescaped. *)
+Fixpoint xm_fields (ps : list (str * str)) (a : xacc) : outcome xacc :=
   match ps with
   | [] => Ok a
-  | (name, (raw, _)) :: rest =>
-      let v := unescape raw in
-      if eq_ignore_case name s!"origin" then
+  | (name, v) :: rest =>
+      let tag := field_tag name in
+      if tag =? 1 then
         match a_origin a with
         | Some _ => Err X_DUPLICATE
         | None => if valid_server_name v
-                  then xm_params rest {| a_origin := Some v; a_destination := a_destination a;
+                  then xm_fields rest {| a_origin := Some v; a_destination := a_destination a;
                                          a_key := a_key a; a_sig := a_sig a |}
                   else Err X_PARSE_ID
         end
-      else if eq_ignore_case name s!"destination" then
+      else if tag =? 2 then
         match a_destination a with
         | Some _ => Err X_DUPLICATE
         | None => if valid_server_name v
-                  then xm_params rest {| a_origin := a_origin a; a_destination := Some v;
+                  then xm_fields rest {| a_origin := a_origin a; a_destination := Some v;
                                          a_key := a_key a; a_sig := a_sig a |}
                   else Err X_PARSE_ID
         end
-      else if eq_ignore_case name s!"key" then
+      else if tag =? 3 then
         match a_key a with
         | Some _ => Err X_DUPLICATE
         | None => if valid_key_id v
-                  then xm_params rest {| a_origin := a_origin a; a_destination := a_destination a;
+                  then xm_fields rest {| a_origin := a_origin a; a_destination := a_destination a;
                                          a_key := Some v; a_sig := a_sig a |}
                   else Err X_PARSE_ID
         end
-      else if eq_ignore_case name s!"sig" then
+      else if tag =? 4 then
         match a_sig a with
         | Some _ => Err X_DUPLICATE
         | None => match b64_decode v with
-                  | Some bytes => xm_params rest {| a_origin := a_origin a; a_destination := a_destination a;
+                  | Some bytes => xm_fields rest {| a_origin := a_origin a; a_destination := a_destination a;
                                                     a_key := a_key a; a_sig := Some bytes |}
                   | None => Err X_PARSE_B64
                   end
         end
-      else xm_params rest a
+      else xm_fields rest a
   end.
 
 (** authentication.rs:50-113 *)
 Definition xm_parse (input : str) : outcome xmatrix :=
   obind (find_scheme (S (S (List.length input))) initial_state input) (fun c =>
-  obind (xm_params (c_params c) {| a_origin := None; a_destination := None; a_key := None; a_sig := None |})
+  obind (xm_fields (unescaped_params c)
+                   {| a_origin := None; a_destination := None; a_key := None; a_sig := None |})
         (fun a =>
   match a_origin a with
   | None => Err X_MISSING
